@@ -71,15 +71,7 @@ nodeLoop:
 				continue nodeLoop
 			}
 
-			skip := false
-			ast.Inspect(item.Body, func(node ast.Node) bool {
-				if branch, ok := node.(*ast.BranchStmt); ok && branch.Tok != token.GOTO {
-					skip = true
-					return false
-				}
-				return true
-			})
-			if skip {
+			if hasBranch(item.Body) {
 				continue nodeLoop
 			}
 
@@ -91,7 +83,13 @@ nodeLoop:
 			switch els := item.Else.(type) {
 			case *ast.IfStmt:
 				item = els
-			case *ast.BlockStmt, nil:
+			case *ast.BlockStmt:
+				// The final else turns into the default clause, where a break would leave the switch, too.
+				if hasBranch(els) {
+					continue nodeLoop
+				}
+				item = nil
+			case nil:
 				item = nil
 			default:
 				panic(fmt.Sprintf("unreachable: %T", els))
@@ -192,6 +190,20 @@ nodeLoop:
 			report.ShortRange())
 	}
 	return nil, nil
+}
+
+// hasBranch reports whether body contains a break, continue or fallthrough statement, whose meaning can depend on
+// whether it is enclosed by a switch statement.
+func hasBranch(body *ast.BlockStmt) bool {
+	found := false
+	ast.Inspect(body, func(node ast.Node) bool {
+		if branch, ok := node.(*ast.BranchStmt); ok && branch.Tok != token.GOTO {
+			found = true
+			return false
+		}
+		return true
+	})
+	return found
 }
 
 func findSwitchPairs(pass *analysis.Pass, expr ast.Expr, pairs *[]*ast.BinaryExpr) bool {
